@@ -1,6 +1,7 @@
 """C01 - every CDB the library builds has the standard's wire format."""
 import copy
 
+PYOPT = 2  # every second shard also runs in an interpreter started with -O
 LEVEL = "exploration"
 RULE = (
     "for each of the 42 command classes x each opcode table that offers it: every int argument through its boundary set "
